@@ -3,7 +3,7 @@
 ID=$1; OUT=$2; K=$3; TIER=${4:-quick}
 P=$OUT/patch$K.diff; D=$OUT/demo$K.py
 test -f $OUT/patch.diff && { P=$OUT/patch.diff; D=$OUT/demo.py; }
-WT=/tmp/int/seedwt_$ID_$K
+WT=/tmp/int/seedwt_${ID}_$K
 rm -rf $WT; git -C /repo worktree prune; git -C /repo worktree add -q $WT HEAD || exit 2
 cd $WT
 echo "== demo on unchanged tree:"; PYTHONPATH=$WT /venv/bin/python $D >/dev/null 2>&1; echo "exit $?"
